@@ -176,7 +176,10 @@ temporary_stack_initializer::~temporary_stack_initializer() noexcept
     // don't destroy, nifty counter does that
     // but can get rid of all the memory
     if (temp_stack)
+    {
         temporary_stack_list_obj.clear(*temp_stack);
+        temp_stack = nullptr; // the stack is marked as free, another thread may adopt it
+    }
 }
 
 temporary_stack& foonathan::memory::get_temporary_stack(std::size_t initial_size)
